@@ -28,7 +28,9 @@ RULE = (
     "case = header SpecId Label ScanNr f1..fN Peptide with the Proteins column last or at a drawn position (N 0-8), "
     "1-12 PSM rows of non-empty blank-free tokens (one case in 16 cycles them up to a row count at or next to 64..10000, powers of two included), 1-5 proteins per row, default or custom protein separator, optional DefaultDirection second line with a "
     "drawn field count, with/without final newline. Non-trivial: some row has >=2 proteins and (the Proteins column is "
-    "not last or a DefaultDirection line is present or the final newline is missing). Distinct = distinct canonical JSON."
+    "not last or a DefaultDirection line is present or the final newline is missing). One case in 8 is a command-line "
+    "history: 1-3 such files (ragged / with DefaultDirection / already rectangular, any order) given to mokapot.mokapot.main, "
+    "which is stopped after its verify step; optionally a non-empty <pin>.tsv lies next to one input. Distinct = distinct canonical JSON."
 )
 ASSUMPTIONS = [
     "fields are non-empty and free of tab, newline and leading/trailing blanks (the converter strips lines)",
@@ -74,8 +76,26 @@ def _case(draw, tier):
             "sep_column": draw(st.sampled_from(["\t", "\t", "\t", "\x1f"]))}
 
 
+@st.composite
+def _cli_case(draw, tier):
+    """The CLI's verify step: 1-3 PSM files on one command line, each ragged, ragged with a DefaultDirection line or
+    already rectangular, in any order; optionally a non-empty <pin>.tsv lies next to one of them."""
+    files = []
+    for _ in range(draw(st.sampled_from([1, 2, 2, 3]))):
+        c = draw(_case(tier))
+        c["big"] = None
+        c["sep_column"], c["sep_protein"] = "\t", ":"
+        if draw(st.sampled_from([False, False, True])):  # already rectangular
+            c["dd"] = None
+            for r in c["rows"]:
+                r["proteins"] = r["proteins"][:1]
+        files.append(c)
+    return {"kind": "cli", "files": files, "leftover": draw(st.sampled_from([None, None, 0, 1, 2])),
+            "leftover_kind": draw(st.sampled_from(["rows", "garbage"]))}
+
+
 def strategy(tier):
-    return _case(tier)
+    return st.one_of(_case(tier), _case(tier), _case(tier), _case(tier), _case(tier), _case(tier), _case(tier), _cli_case(tier))
 
 
 def render(case):
@@ -123,9 +143,80 @@ def well_formed(case):
     return bool(case["rows"])
 
 
+class _StopAfterVerify(BaseException):
+    pass
+
+
+def _check_cli(case):
+    """Runs mokapot.mokapot.main up to the end of its verify step (read_pin is replaced by a stop signal) and compares
+    every input file with the reference conversion of its own content."""
+    import contextlib
+    import io
+
+    from mokapot import mokapot as cli
+    from mokapot.parsers import pin_to_tsv as pt
+
+    from core import scratch_dir
+
+    if not all(well_formed(c) for c in case["files"]):
+        return {"nontrivial": False, "classes": ["ill-formed-skipped"]}
+    with scratch_dir() as tmp:
+        paths, texts, exps, valid = [], [], [], []
+        for i, c in enumerate(case["files"]):
+            text, exp = render(c)
+            p = tmp / f"exp{i}.pin"
+            p.write_text(text)
+            paths.append(p)
+            texts.append(text)
+            exps.append("\n".join(exp) + "\n")
+            valid.append(c["dd"] is None and all(len(r["proteins"]) == 1 for r in c["rows"]))
+        lo = case.get("leftover")
+        left = None
+        if lo is not None:
+            left = Path(str(paths[lo % len(paths)]) + ".tsv")
+            left.write_text("SpecId\tLabel\tScanNr\tPeptide\tProteins\nold\t1\t7\tPEPK\tPX\n" if case.get("leftover_kind") == "rows"
+                            else "left over from an interrupted run\n")
+        def stop(*a, **k):
+            raise _StopAfterVerify()
+
+        real = cli.read_pin
+        cli.read_pin = stop
+        try:
+            with contextlib.redirect_stderr(io.StringIO()), contextlib.redirect_stdout(io.StringIO()):
+                try:
+                    cli.main([str(p) for p in paths] + ["--dest_dir", str(tmp / "out"), "--verbosity", "0"])
+                except _StopAfterVerify:
+                    pass
+                except SystemExit as e:
+                    raise Violation("cli-verify-exit", f"the command line stopped during the verify step: SystemExit({e.code})") from None
+                except Exception as e:  # noqa: BLE001
+                    raise Violation(f"cli-verify:{type(e).__name__}", f"verify step failed: {type(e).__name__}: {str(e)[:200]}") from None
+        finally:
+            cli.read_pin = real
+        kinds = ["rect" if v else ("dd" if c["dd"] else "ragged") for v, c in zip(valid, case["files"])]
+        where = f"files {kinds}, leftover next to file {lo if lo is None else lo % len(paths)} ({case.get('leftover_kind')})"
+        for i, p in enumerate(paths):
+            got = p.read_text()
+            want = texts[i] if valid[i] else exps[i]
+            require(got == want, "cli-verify-file",
+                    f"file {i} ({kinds[i]}) after the verify step: {got.count(chr(10))} lines, expected "
+                    f"{'its unchanged content' if valid[i] else 'the conversion of its own content'} ({want.count(chr(10))} lines); {where}")
+            with open(p) as fh:
+                require(pt.is_valid_tsv(fh) is True, "cli-verify-file", f"file {i} ({kinds[i]}) is not a valid TSV after the verify step; {where}")
+            if not valid[i]:
+                require(not Path(str(p) + ".tsv").exists(), "cli-verify-tsv-left", f"{p.name}.tsv remains after the conversion; {where}")
+    classes = ["cli-verify", "cli-files-" + "+".join(kinds)]
+    if lo is not None:
+        classes.append("cli-leftover-tsv-next-to-" + kinds[lo % len(paths)])
+    nontrivial = len(paths) >= 2 and any(valid) and not all(valid) or lo is not None
+    return {"nontrivial": bool(nontrivial), "classes": classes, "counters": {"cli_verify_runs": 1, "rows_checked": sum(len(c["rows"]) for c in case["files"])}}
+
+
 def check(case):
     from mokapot.parsers import pin_to_tsv as pt
 
+    if case.get("kind") == "cli":
+        return _check_cli(case)
     if not well_formed(case):
         return {"nontrivial": False, "classes": ["ill-formed-skipped"]}
     text, exp = render(case)
